@@ -261,7 +261,63 @@ impl std::io::Write for ChunkSink {
     }
 }
 
+/// Databases with one attachment of several MiB in the binary pool of <Meta>: too large for the executable model, so only
+/// "save succeeds, the saved file opens, and opens to the same database" is observed (op `specOnly`).
+fn run_large_binaries(ctx: &mut Ctx) {
+    let mut rng = ctx.rng.fork();
+    let mib = 1usize << 20;
+    let mut shapes: Vec<(&str, bool, Vec<u8>)> = vec![
+        ("uncompressed-1MiB", false, rng.bytes(mib)),
+        ("uncompressed-1MiB+1", false, rng.bytes(mib + 1)),
+        ("uncompressed-3MiB+2", false, rng.bytes(3 * mib + 2)),
+        ("compressed-incompressible-1.5MiB", true, rng.bytes(mib + mib / 2)),
+        ("compressed-8MiB-of-zeros", true, vec![0u8; 8 * mib]),
+        ("compressed-7.5MiB-of-one-byte", true, vec![0x55u8; 7 * mib + mib / 2]),
+    ];
+    if ctx.thorough {
+        shapes.push(("compressed-32MiB-of-zeros", true, vec![0u8; 32 * mib]));
+        shapes.push(("uncompressed-16MiB+1", false, rng.bytes(16 * mib + 1)));
+    }
+    for (name, compressed, content) in shapes {
+        for compression in [CompressionConfig::GZip, CompressionConfig::None] {
+            let mut db = Database::new(DatabaseConfig {
+                version: DatabaseVersion::KDB4(0),
+                outer_cipher_config: OuterCipherConfig::ChaCha20,
+                compression_config: compression.clone(),
+                inner_cipher_config: InnerCipherConfig::ChaCha20,
+                kdf_config: KdfConfig::Aes { rounds: 1 },
+            });
+            db.meta.binaries.binaries.push(BinaryAttachment { identifier: Some("0".into()), compressed, content: content.clone() });
+            let key = DatabaseKey::new().with_password("pw");
+            let mut buf = Vec::new();
+            let saved = catch(|| db.save(&mut buf, key.clone()));
+            let save_s = match &saved {
+                Ok(Ok(())) => "ok".to_string(),
+                Ok(Err(e)) => format!("err:{}", e),
+                Err(p) => format!("panic:{}", p.site()),
+            };
+            let (reopen, equal) = if save_s == "ok" {
+                match catch(|| Database::parse(&buf, key.clone())) {
+                    Ok(Ok(d2)) => ("ok".to_string(), d2 == db),
+                    Ok(Err(e)) => (format!("err:{}", e), false),
+                    Err(p) => (format!("panic:{}", p.site()), false),
+                }
+            } else {
+                ("n/a".to_string(), false)
+            };
+            ctx.emit(json!({
+                "op": "specOnly", "sub": "large-binary",
+                "shape": name, "content_len": content.len(), "compression": format!("{:?}", compression),
+                "tags": [format!("large-binary:{}", name)], "nontrivial": true,
+                "real": {"save": save_s, "reopen": reopen, "equal": equal, "file_len": buf.len()},
+            }));
+        }
+    }
+}
+
 pub fn run(ctx: &mut Ctx, hostile: bool) {
+    // (also in the hostile run: C12 is about every database whose save succeeds)
+    run_large_binaries(ctx);
     let count = if hostile { ctx.count(800, 20000) } else { ctx.count(300, 5000) };
     let mut seen_random: HashSet<Vec<u8>> = HashSet::new();
     let mut samples: HashMap<(String, usize), Vec<Vec<u8>>> = HashMap::new(); // per (value, length): all draws of this run
@@ -451,6 +507,23 @@ pub fn run(ctx: &mut Ctx, hostile: bool) {
                             // written as the bare base64 of the plaintext (no stream cipher applied)
                             if pt.len() >= 4 && prot.iter().any(|t| *t == b64enc(pt)) {
                                 prot_leaks.push(format!("database-protected-value-as-plain-base64:{}", String::from_utf8_lossy(&pt[..pt.len().min(40)])));
+                            }
+                            // a stretch of the stored form equals the plaintext at the same place (part of the value was not enciphered)
+                            if pt.len() >= 32 {
+                                for t in &prot {
+                                    if let Some(ct) = b64dec(t) {
+                                        if ct.len() == pt.len() {
+                                            let mut run = 0usize;
+                                            let mut best = 0usize;
+                                            for (a, b) in ct.iter().zip(pt.iter()) {
+                                                if a == b { run += 1; best = best.max(run); } else { run = 0; }
+                                            }
+                                            if best >= 24 {
+                                                prot_leaks.push(format!("stored-form-equals-plaintext-over-{}-bytes:value of {} bytes", best, pt.len()));
+                                            }
+                                        }
+                                    }
+                                }
                             }
                             if pt.len() >= 4 && !strings_unprotected_contains(&before, pt) {
                                 if in_text(&texts, pt) {
